@@ -16,8 +16,11 @@ pub mod c08;
 pub mod c09;
 pub mod c11;
 pub mod c12;
+pub mod c13;
+pub mod c14;
 pub mod c15;
 pub mod c16;
+pub mod c17;
 pub mod c18;
 pub mod c19;
 pub mod c20;
@@ -51,8 +54,11 @@ pub fn modules() -> Vec<Module> {
         module!("C09", c09),
         module!("C11", c11),
         module!("C12", c12),
+        module!("C13", c13),
+        module!("C14", c14),
         module!("C15", c15),
         module!("C16", c16),
+        module!("C17", c17),
         module!("C18", c18),
         module!("C19", c19),
         module!("C20", c20),
